@@ -1,11 +1,56 @@
-(* C04 -- The lossless encoder round-trips every image: the layers proved so far (DESIGN.md section 6 C04) and the
-   dimension clause.  The full round-trip theorem needs Spec.VP8L (decoder side); until it is linked the property is
-   decided on every case by the search (both decoders return the input pixels) and the correspondence check. *)
+(* C04 -- The lossless encoder round-trips every image.
+   Property theorems only: each is closed by `exact <lemma>`.
+   Objects: Model.Encoder (hand model of src/encoder.rs, tied to the code by the byte-exact correspondence check; the
+   unstable sort is the parameter `sorter`, constrained only to return a permutation) and Spec.VP8L (the executable
+   transcription of the lossless bitstream specification, validated against libwebp on every run).
+   Main statements: `encode_roundtrip` (frame) and `encode_file_roundtrip` (WebPEncoder::encode); the layer theorems
+   L1..L5 they are composed from are restated below so that each is usable on its own. *)
 From Coq Require Import ZArith List.
-From WebP Require Import Lib.Res Gen.Kernels Model.EncoderHeap Model.Encoder Spec.LZ77Prefix
-  Proofs.Encoder_container Proofs.Encoder_bitwriter Proofs.Encoder_runs.
+From WebP Require Import Lib.Res Lib.Arr Gen.Kernels Model.EncoderHeap Model.Encoder Spec.LZ77Prefix Spec.PrefixCode Spec.WebPFile
+  Proofs.Huffman_lists Proofs.Huffman_ok
+  Proofs.Encoder_container Proofs.Encoder_bitwriter Proofs.Encoder_runs
+  Proofs.C04_bits Proofs.C04_prefix Proofs.C04_codedesc Proofs.C04_arr Proofs.C04_tokens Proofs.C04_transforms
+  Proofs.C04_predictor Proofs.C04_frame Proofs.C04_file.
+From WebP Require Spec.VP8L.   (* not imported: its `let*` notation clashes with Lib.Res's; V = Spec.VP8L *)
+Import ListNotations.
 Open Scope Z_scope.
 Open Scope res_scope.
+
+(* ---------------------------------------------------------------------------------------------------------- *)
+(* the property                                                                                                *)
+
+(* For every image of 1..16384 by 1..16384 pixels in any of the four colour types, with or without the predictor
+   transform, for every admissible tie-break of the unstable sort: encode_frame succeeds (no panic, no error) and the
+   payload it writes is decoded by the lossless specification to exactly the input pixels -- `expand` is grey -> R = G = B,
+   missing alpha -> 255, in the R, G, B, A byte order of the decoder's output buffer -- with the same dimensions.
+   The last clause bounds the payload size (used below to show that the container's u32 size fields cannot overflow). *)
+Theorem encode_roundtrip : forall sorter data w h ct (p : bool),
+  sorter_ok sorter -> 1 <= w <= 16384 -> 1 <= h <= 16384 ->
+  zlen data = w * h * bytes_per_pixel ct -> Forall (fun x => 0 <= x < 256) data ->
+  exists fs, run_encode_frame sorter (-1) data w h ct p = (fs, Ok tt)
+             /\ V.decode_rgba (sink_bytes fs) = Some (w, h, expand ct data)
+             /\ 8 * zlen (sink_bytes fs) <= 85 * (w * h) + 9007.
+Proof. exact C04_frame.encode_roundtrip. Qed.
+
+(* the same on ARGB pixel values (the specification's own pixel type) *)
+Theorem encode_roundtrip_argb : forall sorter data w h ct (p : bool),
+  sorter_ok sorter -> 1 <= w <= 16384 -> 1 <= h <= 16384 ->
+  zlen data = w * h * bytes_per_pixel ct -> Forall (fun x => 0 <= x < 256) data ->
+  exists fs, run_encode_frame sorter (-1) data w h ct p = (fs, Ok tt)
+             /\ V.decode (sink_bytes fs) = Some (w, h, expand_argb ct data)
+             /\ 8 * zlen (sink_bytes fs) <= 85 * (w * h) + 9007.
+Proof. exact C04_frame.encode_roundtrip_argb. Qed.
+
+(* WebPEncoder::encode: with up to 10^9 bytes of metadata, encoding succeeds and the file is the container of
+   Spec.WebPFile around a VP8L payload that decodes to the input *)
+Theorem encode_file_roundtrip : forall sorter data w h ct (p : bool) icc exif xmp,
+  sorter_ok sorter -> 1 <= w <= 16384 -> 1 <= h <= 16384 ->
+  zlen data = w * h * bytes_per_pixel ct -> Forall (fun x => 0 <= x < 256) data ->
+  flen icc + flen exif + flen xmp <= 1000000000 ->
+  exists frame s, run_encode sorter (-1) data w h ct p icc exif xmp = (s, Ok tt)
+    /\ sink_bytes s = lossless_file (is_alpha ct) w h frame icc exif xmp
+    /\ V.decode_rgba frame = Some (w, h, expand ct data).
+Proof. exact C04_file.encode_file_roundtrip. Qed.
 
 (* dimensions of 0 or above 16384: InvalidDimensions, nothing written, no panic *)
 Theorem encode_bad_dims : forall sorter fault data w h ct p icc exif xmp,
@@ -14,15 +59,104 @@ Theorem encode_bad_dims : forall sorter fault data w h ct p icc exif xmp,
   run_encode sorter fault data w h ct p icc exif xmp = (new_sink fault, Err EInvalidDimensions).
 Proof. exact Encoder_container.encode_bad_dims. Qed.
 
-(* layer 3a: BitWriter output = LSB-first packing of the (bits, n) fields, zero-padded to whole bytes *)
+(* ---------------------------------------------------------------------------------------------------------- *)
+(* the layers (C04_bits.parses / emits: a reader consumes exactly the given bits / a writer appends exactly them) *)
+
+(* L1 writer: BitWriter output = LSB-first packing of the (bits, n) fields, zero-padded to whole bytes *)
 Theorem bitwriter_packs : forall ws, Forall field_ok ws ->
   exists w', (write_all_bits ws ;; flush) (new_bitwriter (new_sink (-1))) = (w', Ok tt)
              /\ sink_bytes (bw_sink w') = le_bytes (Z.to_nat ((snd (pack ws) + 7) / 8)) (fst (pack ws)).
 Proof. exact Encoder_bitwriter.bitwriter_packs. Qed.
 
-(* layer 2a: a run of 1..4096 pixels is emitted as a token the specification's prefix decoding reads back *)
+(* L1 writer/reader: write_bits appends the n low bits, least significant first; ReadBits(n) on those bits returns the
+   field; the bytes of a finished writer read as a stream are the emitted bits followed by zero padding *)
+Theorem write_bits_emits : forall v n, 0 <= n <= 64 -> 0 <= v < 2 ^ n -> emits (write_bits v n) (bits_of (Z.to_nat n) v) tt.
+Proof. exact C04_bits.write_bits_emits. Qed.
+Theorem read_bits_parses : forall n v, 0 <= v < 2 ^ Z.of_nat n -> parses (V.read_bits n) (bits_of n v) v.
+Proof. exact C04_bits.read_bits_parses. Qed.
+Theorem emits_run : forall (m : M bitwriter unit) bs, emits m bs tt ->
+  exists w' pad, (mbind m (fun _ => flush)) (new_bitwriter (new_sink (-1))) = (w', Ok tt)
+    /\ sbits (V.Stream [] (sink_bytes (bw_sink w'))) = bs ++ repeat false pad.
+Proof. exact C04_bits.emits_run. Qed.
+
+(* L2: for complete code lengths the specification builds a code tree, and reading the word the encoder emits for
+   symbol k (the bit-reversed canonical word of C14) returns k and consumes exactly that word *)
+Theorem prefix_code_roundtrip : forall lens, Forall (fun l => 0 <= l <= 15) lens -> kraft lens 15 = 2 ^ 15 ->
+  exists c, V.make_code lens = Some c /\
+    forall k, (k < length lens)%nat -> 0 < nth k lens 0 ->
+      parses (V.read_symbol c) (bits_of (Z.to_nat (nth k lens 0)) (nth k (stream_codes lens) 0)) (Z.of_nat k).
+Proof. exact C04_prefix.prefix_code_roundtrip. Qed.
+
+(* L3: the code descriptions (simple and normal form) are read back by read_prefix_code to a code that decodes every
+   used symbol's code word; at most 2100 bits *)
+Theorem single_entry_roundtrip : forall sym n, 0 <= sym < 256 -> sym < n ->
+  exists bs, emits (write_single_entry_huffman_tree sym) bs tt /\ parses (V.read_prefix_code n) bs (V.Symbol sym).
+Proof. exact C04_codedesc.single_entry_roundtrip. Qed.
+Theorem write_huffman_tree_roundtrip : forall sorter freqs n,
+  sorter_ok sorter -> (n = 256 \/ n = 280) -> zlen freqs = n -> Forall (fun f => 0 <= f) freqs -> zsum freqs < 2 ^ 32 ->
+  (exists i, (i < 256)%nat /\ 0 < nth i freqs 0) ->
+  exists bs lens codes c,
+    emits (write_huffman_tree sorter freqs) bs (lens, codes) /\ parses (V.read_prefix_code n) bs c
+    /\ length lens = length freqs /\ length codes = length freqs
+    /\ (forall k, (k < length freqs)%nat -> 0 < nth k freqs 0 -> sym_ok c lens codes k)
+    /\ zlen bs <= 2100.
+Proof. exact C04_codedesc.write_huffman_tree_roundtrip. Qed.
+
+(* L4 (part): a run of 1..4096 pixels is emitted as a token the specification's prefix decoding reads back *)
 Theorem run_token_roundtrip : forall run, 1 <= run <= 4096 ->
   let '(p, e, x) := run_token run in
   0 <= p < 24 /\ e = prefix_extra_bits p /\ 0 <= x < 2 ^ e /\ e <= 10 /\ prefix_value p x = run
   /\ (4 < run -> length_to_symbol_ok (wrapU 16 run) = true).
 Proof. exact Encoder_runs.run_token_roundtrip. Qed.
+
+(* L4: the literal / run tokens of the pixel loop decode, under decode_pixels with one code group, no colour cache and
+   distance code 2 for every run, to the pixel sequence; at most 85 bits per pixel *)
+Theorem pixel_stream_roundtrip : forall ct lens0 codes0 lens1 codes1 lens2 codes2 lens3 codes3 k0 k1 k2 k3,
+  length lens0 = 256%nat /\ length codes0 = 256%nat /\ length lens1 = 280%nat /\ length codes1 = 280%nat
+  /\ length lens2 = 256%nat /\ length codes2 = 256%nat /\ length lens3 = 256%nat /\ length codes3 = 256%nat ->
+  forall w h (all : list pixel), zlen all = w * h -> 1 <= w * h ->
+  Forall (seg_ok ct lens0 codes0 lens1 codes1 lens2 codes2 lens3 codes3 k0 k1 k2 k3) (segments (S (length all)) all) ->
+  exists bs,
+    emits (write_loop (S (length all)) ct all (of_list codes0) (of_list lens0) (of_list codes1) (of_list lens1)
+                      (of_list codes2) (of_list lens2) (of_list codes3) (of_list lens3)) bs tt
+    /\ zlen bs <= 85 * (w * h)
+    /\ forall s tail, sbits s = bs ++ tail ->
+         exists a s', V.decode_pixels (im k0 k1 k2 k3 w h) s = Some (a, s') /\ sbits s' = tail /\ alen a = Z.to_N (w * h)
+                      /\ forall j, 0 <= j < w * h -> V.pix a j = apix (nth (Z.to_nat j) all C04_tokens.dpx).
+Proof. exact C04_tokens.pixel_stream_roundtrip. Qed.
+
+(* L5: the inverse transforms.  Subtract green on the whole array; the predictor with every block in mode 2 (what
+   encode_frame writes) undoes "subtract the pixel above / the pixel to the left in the top row / 0xff000000 first" *)
+Theorem inverse_subtract_green_spec : forall img,
+  alen (V.inverse_subtract_green img) = alen img
+  /\ forall j, 0 <= j < Z.of_N (alen img) -> V.pix (V.inverse_subtract_green img) j = V.add_green (V.pix img j).
+Proof. exact C04_transforms.inverse_subtract_green_spec. Qed.
+Theorem inverse_predictor_spec : forall w h modes img (P Q : Z -> pixel), 1 <= w -> 1 <= h ->
+  (forall x y, 0 <= x < w -> 0 <= y < h ->
+     V.pix modes (Z.shiftr y 9 * V.DIV_ROUND_UP w (2 ^ 9) + Z.shiftr x 9) = V.argb 0 0 2 0) ->
+  (forall i, 0 <= i < w * h -> V.pix img i = apx (Q i)) ->
+  (forall i, 0 <= i < w * h -> pxbytes (P i)) ->
+  (let '(r, g, b, a) := P 0 in Q 0 = (r, g, b, sub8 a 255)) ->
+  (forall i, 0 < i < w -> Q i = sub_px (P i) (P (i - 1))) ->
+  (forall i, w <= i < w * h -> Q i = sub_px (P i) (P (i - w))) ->
+  alen (V.inverse_predictor w h 9 modes img) = alen img
+  /\ forall j, 0 <= j < w * h -> V.pix (V.inverse_predictor w h 9 modes img) j = apx (P j).
+Proof. exact C04_transforms.inverse_predictor_spec. Qed.
+Theorem predictor_transform_spec : forall pixels w h, 1 <= w -> 1 <= h -> length pixels = Z.to_nat (4 * w * h) ->
+  exists out, predictor_transform pixels w h = Ok out /\ length out = length pixels /\
+    forall j, (j < length pixels)%nat -> nth j out 0 = pred_byte pixels (Z.to_nat (4 * w)) j.
+Proof. exact C04_predictor.predictor_transform_spec. Qed.
+
+(* non-vacuity: concrete images through the model encoder and the specification decoder *)
+Example roundtrip_rgba_2x2 :
+  let data := [10; 20; 30; 255; 10; 20; 30; 255; 200; 100; 50; 0; 1; 2; 3; 4] in
+  V.decode_rgba (sink_bytes (fst (run_encode_frame stable_sorter (-1) data 2 2 Rgba8 false))) = Some (2, 2, expand Rgba8 data).
+Proof. exact C04_frame.roundtrip_rgba_2x2. Qed.
+Example roundtrip_l8_5x1 :
+  let data := [7; 7; 7; 7; 9] in
+  V.decode_rgba (sink_bytes (fst (run_encode_frame stable_sorter (-1) data 5 1 L8 false))) = Some (5, 1, expand L8 data).
+Proof. exact C04_frame.roundtrip_l8_5x1. Qed.
+Example roundtrip_rgb_3x3_pred :
+  let data := [1; 2; 3; 4; 5; 6; 7; 8; 9; 10; 20; 30; 40; 50; 60; 70; 80; 90; 255; 0; 255; 0; 255; 0; 128; 128; 128] in
+  V.decode_rgba (sink_bytes (fst (run_encode_frame stable_sorter (-1) data 3 3 Rgb8 true))) = Some (3, 3, expand Rgb8 data).
+Proof. exact C04_frame.roundtrip_rgb_3x3_pred. Qed.
